@@ -207,10 +207,95 @@ fn judge(log: &[String], hung: &[String], why: &mut Vec<String>, flavour: &str) 
     }
 }
 
+// `B <probers> <hammers> <calls>`: back-to-back calls under contention.  Each prober is the only caller of its key and makes
+// <calls> calls one after the other, every call with a task that returns the call's own number; meanwhile <hammers> tasks keep
+// calling on keys of their own, so that the group's map is contended when an owner finishes.  A call made after the owning call
+// of a finished flight has returned starts a new flight: call i must return i (its own task ran), never the value of call i-1.
+fn run_back_to_back(probers: usize, hammers: usize, calls: usize) -> Vec<String> {
+    let mut why = vec![];
+    for (flavour, workers) in [("current-thread", 0usize), ("multi-thread", 8usize)] {
+        let rt = if workers > 0 {
+            tokio::runtime::Builder::new_multi_thread().worker_threads(workers).enable_all().build().unwrap()
+        } else {
+            tokio::runtime::Builder::new_current_thread().enable_all().build().unwrap()
+        };
+        let bad: Arc<Mutex<Vec<String>>> = Arc::new(Mutex::new(vec![]));
+        rt.block_on(async {
+            let group: Arc<Group<u64, String>> = Arc::new(Group::new());
+            let stop = Arc::new(std::sync::atomic::AtomicBool::new(false));
+            let mut hs = vec![];
+            for h in 0..hammers {
+                let (g, stop) = (group.clone(), stop.clone());
+                hs.push(tokio::spawn(async move {
+                    let mut i = 0u64;
+                    while !stop.load(std::sync::atomic::Ordering::Relaxed) {
+                        let _ = g.work(&format!("h{}_{}", h, i % 3), async move { Ok::<u64, String>(i) }).await;
+                        i += 1;
+                        if i % 64 == 0 {
+                            tokio::task::yield_now().await;
+                        }
+                    }
+                }));
+            }
+            let mut ps = vec![];
+            for p in 0..probers {
+                let (g, bad) = (group.clone(), bad.clone());
+                ps.push(tokio::spawn(async move {
+                    let key = format!("p{}", p);
+                    for i in 0..calls as u64 {
+                        let ran = Arc::new(std::sync::atomic::AtomicBool::new(false));
+                        let ran2 = ran.clone();
+                        let (r, _owner) = g
+                            .work(&key, async move {
+                                ran2.store(true, std::sync::atomic::Ordering::SeqCst);
+                                Ok::<u64, String>(i)
+                            })
+                            .await;
+                        let ok = matches!(&r, Ok(v) if *v == i) && ran.load(std::sync::atomic::Ordering::SeqCst);
+                        if !ok {
+                            let mut b = bad.lock().unwrap();
+                            if b.len() < 3 {
+                                b.push(format!("call {} on key {} (its only caller, made after call {} had returned) returned {} and its task {}", i, key, i.saturating_sub(1), res_str(&r), if ran.load(std::sync::atomic::Ordering::SeqCst) { "ran" } else { "never ran" }));
+                            }
+                        }
+                    }
+                }));
+            }
+            for p in ps {
+                if tokio::time::timeout(Duration::from_secs(60), p).await.is_err() {
+                    bad.lock().unwrap().push("a back-to-back caller did not finish within 60 s".into());
+                }
+            }
+            stop.store(true, std::sync::atomic::Ordering::Relaxed);
+            for h in hs {
+                let _ = tokio::time::timeout(Duration::from_secs(10), h).await;
+            }
+        });
+        rt.shutdown_timeout(Duration::from_millis(100));
+        for b in bad.lock().unwrap().iter() {
+            why.push(format!("[C20] {}: {}", flavour, b));
+        }
+    }
+    why
+}
+
 pub fn run(toks: &[&str]) -> Lines {
     let ops: Vec<Vec<String>> = crate::shard::split_ops(toks).iter().map(|o| o.iter().map(|s| s.to_string()).collect()).collect();
     let mut out: Lines = vec![];
     let mut why = vec![];
+    if ops.first().map(|o| o[0] == "B").unwrap_or(false) {
+        let o = &ops[0];
+        let w = run_back_to_back(o[1].parse().unwrap(), o[2].parse().unwrap(), o[3].parse().unwrap());
+        out.push(("obs", format!("back-to-back {} {} {}", o[1], o[2], o[3])));
+        if w.is_empty() {
+            out.push(("orc", "ok".into()));
+        } else {
+            for x in w {
+                out.push(("orc", format!("FAIL {}", x)));
+            }
+        }
+        return out;
+    }
     // silence the intended panics of gated tasks
     std::panic::set_hook(Box::new(|_| {}));
     // `X n` as the first op: the script is repeated n times on the multi-thread runtime (races in narrow windows)
